@@ -6,12 +6,15 @@ from ..core import Op, canon_exc
 from .. import aoef, aoefgen, aoef_impl
 
 PROPERTY = "C02"
-LEAN_MODULE = "Proofs.C02"
+LEAN_MODULE = "Proofs.C02Refine"      # imports Proofs.C02 and Proofs.C02Adapter
 _T = "SE.Proofs.C02."
 _THEOREM_NAMES = ["C02_trav_iff_reachable", "C02_exact", "C02_exact_reachable", "C02_parent_first", "C02_tag_ids_dense",
                   "C02_tag_ids_by_content", "C02_unique", "C02_closed_any", "C02_closed",
                   "C02_user_adapter_values", "C02_tag_adapter_values", "C02_tag_adapter_id",
-                  "C02_adapter_load_is_addAll", "C02_tag_ids_dense_operational"]
+                  "C02_adapter_load_is_addAll", "C02_tag_ids_dense_operational",
+                  "C02_opSave_refines", "C02_opSave_fails_iff", "C02_opSave_error", "C02_opSave_total",
+                  "C02_opSave_tables", "C02_opSave_roundtrip", "C02_opSave_roundtrip_none", "C02_opSave_closed",
+                  "C02_opSave_unique", "C02_opSave_parent_first", "C02_opSave_exact", "C02_opSave_tag_ids_dense"]
 THEOREMS = [_T + n for n in _THEOREM_NAMES]
 LEVEL_TEXT = ("Lean theorems over the AOEF model (shared with C01): the document `save c` writes is closed under "
               "reference, its identifiers are unique per list, a sequence's parent precedes it, tag ids are dense and "
@@ -285,6 +288,25 @@ def _correspondence(ctx):
     ctx.run_cases(OPS["closure"], ot)
     ctx.run_cases(OPS["closure"], _gen_cases(ctx, ctx.rng, ctx.budget(120, 4000)))
     ctx.run_cases(OPS["closure"], _gen_cases(ctx, ctx.rng, ctx.budget(6, 30), size=2.5))
+    # the operational model (OpSave.lean: adapters as mutable tables, conversions in the code's call order) against
+    # the real document *including* the order of the lists and the tag numbering.  Informational: the property does
+    # not pin the order, so a disagreement is recorded, not reported (C02_opSave_refines proves opSave = save, and
+    # `save` is what the enforced, order-insensitive comparison ties to the code).
+    sample = _gen_cases(ctx, ctx.rng, ctx.budget(6, 40))
+    agree = 0
+    outs = ctx.model_many("op_save", [{"collection": c["collection"], "audio_dir": c["audio_dir"]} for c in sample])
+    for c, mo in zip(sample, outs):
+        try:
+            _obj, path = aoef_impl.save_real(c["collection"], c["audio_dir"])
+            doc, _unk = aoef_impl.read_doc(path)
+            aoef_impl.cleanup(path)
+            real = aoef._strip_empty(doc)
+            agree += int("val" in mo and aoef._strip_empty(mo["val"]) == real)
+        except Exception:  # noqa: BLE001
+            agree += int("raise" in mo)
+    ctx.note(f"operational save model agrees with the real documents including list order and tag ids on {agree}/{len(sample)} collections")
+    ctx.tally("op_save exact-order agreement", agree)
+    ctx.tally("op_save exact-order cases", len(sample))
     # histories: collections of several types over the same pools of objects, saved in one process
     hc = _history_cases(ctx.rng, ctx.budget(40, 300))
     oks = ctx.driver.call_many("C01", "wf", [{"collection": s["collection"]} for h in hc for s in h["steps"]])
